@@ -116,9 +116,11 @@ def r13_4(ctx):
                            "tuple(p); == compares values within 1e-9, symmetrically", floor=20)
     q = "polygon.Point2D"
     ax, ay, bx, by, k = Fr(3, 2), Fr(-2), Fr(5), Fr(1, 3), Fr(2, 3)
+    AX, AY, BX, BY = ax, ay, bx, by
 
-    def case(label, run, want, fresh=None, same=None, untouched=True):
+    def case(label, run, want, fresh=None, same=None, untouched=True, coords=None):
         W = World(ctx)
+        ax, ay, bx, by = coords or (AX, AY, BX, BY)
         a, b = W.point(ax, ay), W.point(bx, by)
         try:
             got = run(W, a, b)
@@ -149,6 +151,11 @@ def r13_4(ctx):
     case("__add__ a + b", lambda W, a, b: a + b, (ax + bx, ay + by), fresh=True)
     case("__sub__ a - b", lambda W, a, b: a - b, (ax - bx, ay - by), fresh=True)
     case("__sub__ b - a", lambda W, a, b: b - a, (bx - ax, by - ay), fresh=True)
+    # coordinates within the cap of 10^9 whose sum / difference is not (coprime denominators 31627 and 31643): the result
+    # of + and - is exact, it is not pushed through the cap again
+    big = (Fr(1, 31627), Fr(5, 31643), Fr(2, 31643), Fr(-3, 31627))
+    case("__sub__ a - b (denominators 31627, 31643)", lambda W, a, b: a - b, (big[0] - big[2], big[1] - big[3]), fresh=True, coords=big)
+    case("__add__ a + b (denominators 31627, 31643)", lambda W, a, b: a + b, (big[0] + big[2], big[1] + big[3]), fresh=True, coords=big)
     case("__mul__ a * k", lambda W, a, b: a * k, (ax * k, ay * k), fresh=True)
     case("__rmul__ k * a", lambda W, a, b: k * a, (ax * k, ay * k), fresh=True)
     case("__truediv__ a / k", lambda W, a, b: a / k, (ax / k, ay / k), fresh=True)
